@@ -450,7 +450,7 @@ class Circuit:
         See :py:attr:`substitute()` for more detail.
         """
         for n in list(self.nodes):
-            if n.kind in tlib.cells:
+            if n.circuit is self and n.kind in tlib.cells:  # skip nodes that an earlier substitution has swept away
                 self.substitute(n, tlib.cells[n.kind][0])
 
     def copy(self):
